@@ -2943,13 +2943,16 @@ fn core_word_enum(xs: &mut State) -> Xresult {
 
 fn core_word_endenum(xs: &mut State) -> Xresult {
     core_word_nested_end(xs)?;
-    if xs.data_depth() > 0 {
-        return Err(Xerr::ErrorMsg(xeh_xstr!("enum data stack contains unused elements")));
-    }
     match xs.pop_flow() {
-        Some(Flow::Enum(_)) => core_word_nested_end(xs),
+        Some(Flow::Enum(_)) => {
+            // (looked at only inside an enum: a stray `endenum` must not judge the stack of the surrounding program)
+            if xs.data_depth() > 0 {
+                return Err(Xerr::ErrorMsg(xeh_xstr!("enum data stack contains unused elements")));
+            }
+            core_word_nested_end(xs)
+        }
         other => enum_flow_error(other.as_ref()),
-    }   
+    }
 }
 
 fn core_word_name(xs: &mut State) -> Xresult {
